@@ -117,6 +117,11 @@ static const char* kCurated[] = {
     "a: x y %collapse; b: a !z@0=1 #cell; c: a/S b ?1=1>x",
 };
 
+static int curatedIndex(const std::string& spec) {
+  int i = 0;
+  for (auto* c : kCurated) { if (spec == c) return i; ++i; }
+  return 1 << 20;
+}
 static bool isCurated(const std::string& spec) {
   for (auto* c : kCurated) if (spec == c) return true;
   return false;
@@ -348,6 +353,24 @@ struct Explorer {
                   res.count("db_write_error_points");
                   visit(hc, o, node.cancels + 1);
                 }
+              // ... or a read does (rule results are looked up lazily: the builds after a restart). The engine then
+              // abandons the build by itself; C05 also cancels that build from the client at every later step.
+              if (cfg.useDB && !cfg.capi)
+                for (int i = 1; i <= base.last.reads; ++i) {
+                  History hc = hh;
+                  hc.back().failReadAt = i;
+                  RunOut o = run(hc);
+                  res.count("db_read_error_points");
+                  visit(hc, o, node.cancels + 1);
+                  if (args.prop == "C05" && !o.dead && (args.thorough() || curatedIndex(w.spec) < 16))
+                    for (int k = 1; k <= o.last.steps; ++k) {
+                      History hd = hc;
+                      hd.back().cancelAt = k;
+                      RunOut o2 = run(hd);
+                      res.count("db_read_error_then_cancel_points");
+                      visit(hd, o2, node.cancels + 1);
+                    }
+                }
             }
           }
         }
@@ -367,7 +390,8 @@ struct Explorer {
   // interrupt that build at EVERY step (cancellation) and at every database write (error), optionally restart, put
   // back one leaf of S (or all of S), rebuild K. The last build is judged: an interrupted build must not leave behind
   // a record that a later build takes to be up to date although its task saw the state before the reversal.
-  void abaPass() {
+  // plainOnly: no interruption at all (C07: a build that ends in a REAL cycle is the interruption)
+  void abaPass(bool plainOnly = false) {
     std::string leaves = w.leaves;
     size_t n = leaves.size();
     if (n == 0 || n > 4) return;
@@ -383,10 +407,11 @@ struct Explorer {
         std::vector<unsigned> backs;
         for (size_t i = 0; i < n; ++i) if (S >> i & 1) backs.push_back(1u << i);
         if (backs.size() > 1) backs.push_back(S);
-        int nint = base.last.steps + (cfg.useDB && !cfg.capi ? base.last.writes : 0);
-        for (int k = 1; k <= nint; ++k) {
+        int nint = plainOnly ? 0 : base.last.steps + (cfg.useDB && !cfg.capi ? base.last.writes : 0);
+        for (int k = plainOnly ? 0 : 1; k <= nint; ++k) {
           History hi = h;
-          if (k <= base.last.steps) hi.back().cancelAt = k; else hi.back().failWriteAt = k - base.last.steps;
+          if (k == 0) {}
+          else if (k <= base.last.steps) hi.back().cancelAt = k; else hi.back().failWriteAt = k - base.last.steps;
           for (int restart = 0; restart <= (cfg.useDB ? 1 : 0); ++restart)
             for (unsigned back : backs) {
               History hh = hi;
@@ -612,6 +637,9 @@ static void exploreWorld(const std::string& spec, const std::string& modeName, v
   } else if (p == "C07") {
     ex.cfg.checkC01 = false; ex.cfg.checkC02 = false; ex.cfg.checkProto = false; ex.cfg.checkPersist = false;
     ex.bfs(modeName.compare(0, 7, "@graphs") == 0 || spec.find("'") == std::string::npos ? (T ? 4 : 3) : (T ? 5 : 4), 1, 0, false);
+    // cycles that come and go with the leaves: build, set any subset of the leaves, build (possibly a real cycle), put
+    // leaves back, build again - the failed build must not leave a false cycle (or a missed one) behind
+    if (modeName.compare(0, 7, "@graphs") != 0 && isCurated(spec)) ex.abaPass(/*plainOnly=*/true);
   } else if (p == "C06") {
     ex.cfg.checkC02 = false; ex.cfg.checkPersist = false;
     // prefixes: every history of depth <= 2 (default schedules), then all schedules of a final build
